@@ -1,6 +1,8 @@
 //! C17 — bytes before the header do not change what is read.
 use crate::core::*;
 use crate::pdfgen::docs::*;
+use crate::pdfgen::file::*;
+use crate::pdfgen::val::*;
 use crate::walker::*;
 use rayon::prelude::*;
 use serde_json::{json, Value};
@@ -117,6 +119,27 @@ pub fn run(tier: Tier, _seed: u64, tally: &mut Tally) -> CheckMeta {
         bases.push(Base { name: name.into(), bytes: rich_doc(b"", opts), pw: vec![], reference: Err(String::new()), reference_cached: Err(String::new()) });
     }
     bases.push(Base { name: "gen:small".into(), bytes: small_doc(b""), pw: vec![], reference: Err(String::new()), reference_cached: Err(String::new()) });
+    // entries whose offset is a boundary value: object 6 is listed as in use at offset 0 (the header itself, as some
+    // producers write the numbers they do not use), object 7 at the offset of object 1, with a table and with a stream
+    for stream in [false, true] {
+        let mut fb = FileBuilder::new(b"");
+        fb.add(1, 0, &Val::dict(vec![("Type", Val::name("Catalog")), ("Pages", Val::r(2))]));
+        let first = fb.section.get(&1).cloned();
+        fb.add(2, 0, &Val::dict(vec![("Type", Val::name("Pages")), ("Kids", Val::Array(vec![Val::r(3)])), ("Count", Val::Int(1))]));
+        fb.add(3, 0, &Val::dict(vec![("Type", Val::name("Page")), ("Parent", Val::r(2)), ("MediaBox", Val::ints(&[0, 0, 200, 200])), ("Contents", Val::r(4)), ("Resources", Val::dict(vec![]))]));
+        fb.add(4, 0, &Val::stream(vec![], b"q Q".to_vec()));
+        fb.add(5, 0, &Val::Array(vec![Val::r(6), Val::r(7)]));
+        fb.section.insert(6, Entry::InUse { off: 0, gen: 0 });
+        if let Some(e) = first {
+            fb.section.insert(7, e);
+        }
+        if stream {
+            fb.finish_stream(&[("Root", Val::r(1))], &XrefStreamOpts::new(8));
+        } else {
+            fb.finish_table(&[("Root", Val::r(1))], Split::Runs);
+        }
+        bases.push(Base { name: format!("gen:entry-at-offset-0-{}", if stream { "stream" } else { "table" }), bytes: fb.bytes(), pw: vec![], reference: Err(String::new()), reference_cached: Err(String::new()) });
+    }
     if let Some(enc) = crate::props::c06::encrypted_rich_doc() {
         bases.push(Base { name: "gen:encrypted-rc4".into(), bytes: enc, pw: b"user".to_vec(), reference: Err(String::new()), reference_cached: Err(String::new()) });
     }
